@@ -49,6 +49,8 @@ static Tup parseTup(const std::string& p) {
 struct Case {
     int dim = 1;
     int ctx = 1;   // 1: every thread keeps one op_context for all its inserts; 0: a fresh context per insert
+    int strict = 0;    // 1: judge also the probes that hit a recorded finding (used by the saved finding replays)
+    int anchors = 0;   // informational: number of leading set-up tuples added to keep clear of the negative-first finding
     std::vector<Tup> setup;               // inserted sequentially before the threads start
     std::vector<std::vector<Tup>> ops;    // per thread
     std::vector<Tup> other;               // content of a second trie merged in with insertAll after the threads joined
@@ -58,7 +60,7 @@ struct Case {
     std::uint64_t tail = 1;
     std::string text() const {
         std::ostringstream os;
-        os << "c27 dim=" << dim << " ctx=" << ctx << "\n";
+        os << "c27 dim=" << dim << " ctx=" << ctx << " anchors=" << anchors << (strict ? " strict=1" : "") << "\n";
         auto line = [&](const char* k, const std::vector<Tup>& v) {
             os << k;
             for (auto& t : v) os << " " << tupStr(t, dim);
@@ -94,6 +96,8 @@ struct Case {
                 while (ls >> kv) {
                     if (kv.rfind("dim=", 0) == 0) c.dim = std::atoi(kv.c_str() + 4);
                     if (kv.rfind("ctx=", 0) == 0) c.ctx = std::atoi(kv.c_str() + 4);
+                    if (kv.rfind("anchors=", 0) == 0) c.anchors = std::atoi(kv.c_str() + 8);
+                    if (kv.rfind("strict=", 0) == 0) c.strict = std::atoi(kv.c_str() + 7);
                 }
             } else if (w == "setup:")
                 c.setup = tups(ls);
@@ -132,6 +136,9 @@ struct Result {
 struct Fail {
     std::string msg;
 };
+
+static bool g_strict = false;
+static std::map<std::string, std::uint64_t> g_excluded;   // probes skipped because they would hit a recorded finding
 
 // ---------------------------------------------------------------------------------------------------------------------
 template <unsigned D>
@@ -234,20 +241,37 @@ struct Runner {
             if (in && fromE(*f) != p) throw Fail{tag + " find" + str(p) + " points to " + str(fromE(*f))};
             // (5) prefix ranges for every prefix length
             boundaries<0>(trie, model, p, ctx, tag);
-            // lower_bound / upper_bound: only where "not less than" has one reading (all values non-negative)
-            if (allNonNeg && nonNeg(p)) {
+            // lower_bound / upper_bound: only where "not less than" has one reading (all values non-negative). Excluded, and
+            // counted: probes with INT32_MAX in a non-last column (fix_*_bound computes entry+1 on a signed int there) and, for
+            // upper_bound, probes whose successor is (prefix, p[j]+1, 0, .., 0) -- finding "upper_bound skips (x+1,0..0)".
+            bool maxInner = false;
+            for (unsigned j = 0; j + 1 < D; j++) maxInner = maxInner || (p[j] == INT32_MAX && !g_strict);
+            if (allNonNeg && nonNeg(p) && maxInner) g_excluded["bound_probe_with_INT32_MAX_in_inner_column"]++;
+            if (allNonNeg && nonNeg(p) && !maxInner) {
                 auto lb = trie.lower_bound(toE(p), ctx);
                 auto el = model.lower_bound(p);
                 if ((lb == trie.end()) != (el == model.end())) throw Fail{tag + " lower_bound" + str(p) + ": end-ness disagrees with the model"};
                 if (el != model.end() && fromE(*lb) != *el) throw Fail{tag + " lower_bound" + str(p) + " = " + str(fromE(*lb)) + ", model " + str(*el)};
-                auto ub = trie.upper_bound(toE(p), ctx);
-                auto eu = model.upper_bound(p);
-                if ((ub == trie.end()) != (eu == model.end())) throw Fail{tag + " upper_bound" + str(p) + ": end-ness disagrees with the model"};
-                if (eu != model.end() && fromE(*ub) != *eu) throw Fail{tag + " upper_bound" + str(p) + " = " + str(fromE(*ub)) + ", model " + str(*eu)};
                 // the suffix starting at lower_bound is exactly the model's suffix
                 if (el != model.end()) {
                     std::vector<Tup> suffix(el, model.end());
                     sameSet(collect(lb, trie.end(), model.size(), tag + " lower_bound suffix"), suffix, tag + " [lower_bound" + str(p) + ", end)");
+                }
+                auto eu = model.upper_bound(p);
+                bool known = false;
+                if (eu != model.end())
+                    for (unsigned j = 0; j + 1 < D && !known; j++) {
+                        bool m = (*eu)[j] == p[j] + 1;
+                        for (unsigned i = 0; i < j; i++) m = m && (*eu)[i] == p[i];
+                        for (unsigned i = j + 1; i < D; i++) m = m && (*eu)[i] == 0;
+                        known = m;
+                    }
+                if (known && !g_strict)
+                    g_excluded["upper_bound_probe_whose_successor_is_next_prefix_then_zeros"]++;
+                else {
+                    auto ub = trie.upper_bound(toE(p), ctx);
+                    if ((ub == trie.end()) != (eu == model.end())) throw Fail{tag + " upper_bound" + str(p) + ": end-ness disagrees with the model"};
+                    if (eu != model.end() && fromE(*ub) != *eu) throw Fail{tag + " upper_bound" + str(p) + " = " + str(fromE(*ub)) + ", model " + str(*eu)};
                 }
             }
         }
@@ -418,12 +442,79 @@ struct Runner {
 };
 
 static Result runCase(const Case& c, vsched::ChoiceSource* src) {
+    g_strict = c.strict != 0;
     switch (c.dim) {
         case 1: return Runner<1>::run(c, src);
         case 2: return Runner<2>::run(c, src);
         case 3: return Runner<3>::run(c, src);
         default: return Runner<4>::run(c, src);
     }
+}
+
+// Finding "negative before non-negative" (notes/C27.md): a trie level that receives a negative value before its first
+// non-negative one loses the negative values for contains/insert when the level is raised (SparseArray::raiseLevel truncates
+// the offset to 32 bits). The main campaign keeps clear of the trigger: whenever a case uses negative values, every level
+// first receives the value 0 through sequential "anchor" tuples (prefix + zeros, shorter prefixes first).
+static bool anyNegative(const std::vector<Tup>& v, int dim) {
+    for (auto& t : v)
+        for (int i = 0; i < dim; i++)
+            if (t[i] < 0) return true;
+    return false;
+}
+static std::vector<Tup> anchorsFor(const std::vector<const std::vector<Tup>*>& lists, int dim) {
+    std::vector<Tup> out;
+    std::set<Tup, TupLess> seen;
+    for (int j = 0; j < dim; j++)
+        for (auto* l : lists)
+            for (auto& t : *l) {
+                Tup a{};
+                for (int i = 0; i < j; i++) a[i] = t[i];
+                if (seen.insert(a).second) out.push_back(a);
+            }
+    return out;
+}
+static void addAnchors(Case& c) {
+    bool neg = anyNegative(c.setup, c.dim) || anyNegative(c.other, c.dim) || anyNegative(c.probes, c.dim);
+    for (auto& t : c.ops) neg = neg || anyNegative(t, c.dim);
+    if (!neg) return;
+    std::vector<const std::vector<Tup>*> lists{&c.setup, &c.other, &c.probes};
+    for (auto& t : c.ops) lists.push_back(&t);
+    auto a = anchorsFor(lists, c.dim);
+    c.anchors = (int)a.size();
+    c.setup.insert(c.setup.begin(), a.begin(), a.end());
+    auto b = anchorsFor({&c.other}, c.dim);
+    c.other.insert(c.other.begin(), b.begin(), b.end());
+}
+
+// finding "upper_bound skips (x+1,0..0)": after exhausting the branch of entry[0], fix_upper_bound continues with
+// upper_bound(entry[0]+1, 0, .., 0) instead of lower_bound, so a stored tuple (entry[0]+1, 0, .., 0) is skipped
+static int probeUpperBoundSkip() {
+    souffle::Trie<2> t;
+    souffle::Trie<2>::entry_type a{0, 0}, b{1, 0};
+    t.insert(a);
+    t.insert(b);
+    auto ub = t.upper_bound(a);
+    return (ub == t.end() || *ub != b) ? 1 : 0;
+}
+
+// deterministic re-test of the trigger; 1 = the finding is still present
+static int probeNegativeFirst() {
+    int hit = 0;
+    {
+        souffle::Trie<1> t;
+        souffle::Trie<1>::entry_type a{-3}, b{0};
+        t.insert(a);
+        t.insert(b);
+        if (!t.contains(a) || t.insert(a)) hit = 1;
+    }
+    {
+        souffle::Trie<2> t;
+        souffle::Trie<2>::entry_type a{-1, 7}, b{0, 7};
+        t.insert(a);
+        t.insert(b);
+        if (!t.contains(a) || t.insert(a)) hit = 1;
+    }
+    return hit;
 }
 
 static void account(hc::Stats& st, const Case& c, const Result& r) {
@@ -434,6 +525,7 @@ static void account(hc::Stats& st, const Case& c, const Result& r) {
     }
     st.cls("dim=" + std::to_string(c.dim));
     if (r.mixedSign) st.cls("mixed_sign_values");
+    if (c.anchors) st.cls("anchored_mixed_sign");
     if (r.interleaved) st.cls("inserts_interleaved_on_one_node_object");
     if (r.updateOverlap) st.cls("root_or_first_update_inside_other_threads_insert");
     if (r.spin) st.cls("thread_spun_on_locked_root_or_first_info");
@@ -471,6 +563,15 @@ int main(int argc, char** argv) {
             return 1;
         }
         std::cout << (r.inconclusive ? "INCONCLUSIVE\n" : "PASS\n");
+        return 0;
+    }
+    if (args.mode == "probe") {
+        int f = probeNegativeFirst();
+        st.extra["finding_negative_first_lost"] = f;
+        st.extra["finding_upper_bound_skips_next_prefix_zero"] = probeUpperBoundSkip();
+        if (st.extra["finding_upper_bound_skips_next_prefix_zero"]) std::cout << "FINDING: Trie<2>{(0,0),(1,0)}.upper_bound((0,0)) does not return (1,0)\n";
+        if (f) std::cout << "FINDING: a negative value stored before the first non-negative one is lost for contains/insert\n";
+        if (!args.out.empty()) st.write(args.out);
         return 0;
     }
     if (args.mode == "dfs") {
@@ -511,6 +612,7 @@ int main(int argc, char** argv) {
                 }
                 c.probes = alphabet;
                 c.parts = {1, 2, 3};
+                addAnchors(c);
                 vsched::DfsSource dfs(bound);
                 do {
                     dfs.beginRun();
@@ -546,6 +648,8 @@ int main(int argc, char** argv) {
         return st.violations.empty() ? 0 : 1;
     }
     hc::setRcParams(args);
+    st.extra["finding_negative_first_lost"] = probeNegativeFirst();
+    st.extra["finding_upper_bound_skips_next_prefix_zero"] = probeUpperBoundSkip();
     Case lastFail;
     std::string lastMsg;
     std::uint64_t counter = 0;
@@ -632,6 +736,7 @@ int main(int argc, char** argv) {
             c.probes.push_back(t);
         }
         c.parts = {1, 2, 3, 7, 100};
+        addAnchors(c);
         c.sched = *rc::gen::container<std::vector<std::uint8_t>>(rc::gen::arbitrary<std::uint8_t>());
         c.tail = *hc::R<std::uint64_t>(1, 1u << 30);
         pending.set(c.text());
@@ -652,6 +757,7 @@ int main(int argc, char** argv) {
         RC_ASSERT(r.ok);
     });
     if (!ok) st.violations.push_back({lastFail.text(), lastMsg});
+    for (auto& kv : g_excluded) st.extra["excluded:" + kv.first] = kv.second;
     if (!args.out.empty()) st.write(args.out);
     return ok ? 0 : 1;
 }
